@@ -831,7 +831,7 @@ def run(ctx):
               {"files": {"events.json": [1, 2], "sub-01/sub-01_events.json": {"A": {"HED": {"x": "Red"}}},
                          "sub-01/sub-01_task-A_events.tsv": "onset\tduration\tA\n1.0\tn/a\tx\n"},
                "excl": list(DEFAULT_EXCL), "cfw": True, "format": "text", "output": True}]
-    n = 170 if ctx.quick() else 2500
+    n = 170 if ctx.quick() else 2100
     trees = corpus + [make_unique(ctx.rng, gen_tree(ctx.rng)) for _ in range(n)]
     for t in trees:
         t["filters"] = [gen_filter(ctx.rng, t) for _ in range(2)]
